@@ -2197,10 +2197,34 @@ def _view_contracts(v: ViewSpec, images_only=False):
     C14Executor.VIEW[out[-1].target] = "tables"
 
     # ---- iterate_units: concat(u.get_images()) is the same flattening; unit tables are tables of the same element ----
+    def counters(lc):
+        """`k += 1` once per iteration (a hand-written enumerate): k == k at loop entry + number of iterations"""
+        out = []
+        try:
+            fnode = getattr(lc.st.frame, "fnode", None)
+            loop = next((n for n in ast.walk(fnode) if isinstance(n, ast.For)), None) if fnode is not None else None
+            for b in (loop.body if loop is not None else ()):
+                nm = None
+                if isinstance(b, ast.AugAssign) and isinstance(b.op, ast.Add) and isinstance(b.target, ast.Name) and isinstance(b.value, ast.Constant) \
+                        and b.value.value == 1 and type(b.value.value) is int:
+                    nm = b.target.id
+                elif isinstance(b, ast.Assign) and len(b.targets) == 1 and isinstance(b.targets[0], ast.Name) \
+                        and ast.unparse(b.value) in (f"{b.targets[0].id} + 1", f"1 + {b.targets[0].id}"):
+                    nm = b.targets[0].id
+                if nm is None:
+                    continue
+                stores = [x for x in ast.walk(loop) if isinstance(x, ast.Name) and x.id == nm and isinstance(x.ctx, ast.Store)]
+                v0, v1 = lc.entry.lookup(nm), lc.st.lookup(nm)
+                if len(stores) == 1 and isinstance(v0, VInt) and isinstance(v1, VInt):
+                    out.append(v1.t == v0.t + lc.i)
+        except Exception:  # noqa
+            return []
+        return out
+
     def unit_inv(lc):
         me = _self_of(lc.entry)
         lc.st.assume(v.defn(me, lc.i))
-        return Conj([("images", Y(lc.st, "img") == v.FLATI(me, lc.i)), ("count", Y(lc.st, "cnt") == lc.i)])
+        return Conj([("images", Y(lc.st, "img") == v.FLATI(me, lc.i)), ("count", z3.And([Y(lc.st, "cnt") == lc.i] + counters(lc)))])
 
     def unit_spec(ex, st):
         e = ex.current_element(st, v.ecls)
@@ -2216,8 +2240,20 @@ def _view_contracts(v: ViewSpec, images_only=False):
                  ("one-unit-per-element", lambda c: Y(c.st, "cnt") == v.n(me_of(c)))],
         raises=[], loops={0: LoopSpec(inv=unit_inv, label="units")},
         note="concat(u.get_images() for u in iterate_units()) == list(iterate_images()); u.get_tables() ⊆ tables of the same element"))
+    def unit_num(ex, st, before):
+        """the stored number of the element when it has one (slides: `slide_number`, set by the extractor, also stamped on the slide's
+        pictures), else the 1-based position (pages, sheets)"""
+        sch = ex.schema(v.ecls) or {}
+        if sch.get("slide_number") == "int":
+            e = ex.current_element(st, v.ecls)
+            if e is None:
+                raise ops.Unsupported("no current element at the yield of a unit")
+            from contracts.c03_exec import fld
+            return fld(v.ecls, "slide_number", z3.IntSort())(e.t)
+        return before + 1
     C14Executor.VIEW[tgt] = "units"
     C14Executor.UNIT_SPEC[tgt] = unit_spec
+    C14Executor.UNIT_NUM[tgt] = unit_num
     return out
 
 
